@@ -65,6 +65,7 @@ def check(rep: Report, ctx: Ctx) -> None:
     r518(rep, ctx)
     r519(rep, ctx)
     r520(rep, ctx)
+    r521(rep, ctx)
 
 
 # --------------------------------------------------------------------------
@@ -1386,3 +1387,36 @@ def r520(rep: Report, ctx: Ctx) -> None:
         o.rule = "R5.20"
         rep.obligations.append(o)
     rep.funcs_seen |= sub.funcs_seen
+
+
+def main_walk_loop(rep: Report, ctx: Ctx, rule: str) -> None:
+    """(shared: R5.21 / R1.25)  The dispatch of the walk: what happens to the
+    node the walk stands on, as a function of (event or logic node, inside a
+    block or not, successor or none, break point or not)."""
+    from .effspec import effects, expect
+    from .walkspec import MAIN_ABBR, MAIN_NAMES, MAIN_TABLE
+    fi = ctx.func("create_puml_graph_from_node_class_graph")
+
+    def ab(x):
+        if isinstance(x, (tuple, list)):
+            return type(x)(ab(y) for y in x)
+        for a, b in MAIN_ABBR:
+            x = x.replace(a, b)
+        return x
+    effs = effects(ctx, fi, names=MAIN_NAMES)
+    for e in effs:
+        e.recv, e.args, e.guards = ab(e.recv), ab(e.args), ab(e.guards)
+    for what, kind, name, recv, args, must, may in MAIN_TABLE:
+        expect(rep, rule, fi, effs, what, kind=kind, name=name, recv=recv,
+               args=args, must=must, may=may)
+    n = len([e for e in effs if e.kind == "call" and e.name in MAIN_NAMES])
+    rep.ob(rule, "no other dispatch in the main loop", n == 8, fi=fi,
+           node=fi.node, detail=f"{n} calls of the step functions "
+           "(8 on the pinned tree)")
+
+
+def r521(rep: Report, ctx: Ctx) -> None:
+    rep.rule("R5.21", "the main loop of the walk dispatches on (event / "
+             "logic node, inside a block, successor, break point) as "
+             "pinned", 10)
+    main_walk_loop(rep, ctx, "R5.21")
